@@ -857,12 +857,22 @@ func (check typecheck) builtin(name string, n *node, child []*node, ellipsis boo
 			return nil
 		}
 
+		// The element type of the slice, as declared when it is known, so
+		// that defined types are told apart from their underlying type.
+		elem := valueTOf(t.Elem())
+		st := typ
+		for st.cat == linkedT && st.val != nil {
+			st = st.val
+		}
+		if st.cat == sliceT && st.val != nil {
+			elem = st.val
+		}
 		fun := &node{
 			typ: &itype{
 				cat: funcT,
 				arg: []*itype{
 					typ,
-					{cat: variadicT, val: valueTOf(t.Elem())},
+					{cat: variadicT, val: elem},
 				},
 				ret: []*itype{typ},
 			},
